@@ -1,8 +1,283 @@
-(** Property C20 -- XInclude processing yields the specified merged tree and detects inclusion loops. *)
+(** Property C20 -- XInclude processing yields the specified merged tree and detects inclusion loops.
+    Only the property theorems: each is closed by [exact] of a lemma of Proofs20*.v and followed by
+    [Print Assumptions].  Spec: Spec20.v ([xi_spec], XInclude 1.0 section 4 over an abstract file system).
+    Model: Model20.v ([walk] = XIncludeUtils::parseDOMNodeDoingXInclude, [inc_resolve] = doDOMNodeXInclude,
+    [xi_docproc] = XIncludeDOMDocumentProcessor::doXIncludeDOMProcess, [xi_parser] = AbstractDOMParser with
+    fDoXInclude).  The model has four defect switches (fixb, fixn, fixc, fixe; true = repaired).  /repo carries all
+    four repairs (fix: commits 0b3e60b, 440f5a3, 7545b06, 310c4f3); which ones the source contains is read from
+    it on every run (translator/c20_switches.py) and the correspondence runs the model with exactly those.
+
+    What is proved about which entry point:
+    * termination (fuel sufficiency): [xi_docproc], every document, every switch setting (T20_terminates);
+      [xi_parser] with the end-tag repair (fixe), for top documents whose document element is not an xi:include
+      and whose xi:include elements have only xi:fallback element children ([simple], T20_terminates_parser).
+      Beyond that (old end-tag rule, which re-walks already expanded fallback content) it is not proved; the
+      correspondence checks on every run that the model never answers MODEL_FUEL.
+    * expansion = Spec, base URIs included: [walk] at any node, in particular inside included documents
+      (T20_expansion_nodes); [xi_docproc] for documents whose document element is not itself an xi:include
+      (T20_expansion); [xi_parser] for those that are also [simple] (T20_parser_eq_docproc, T20_expansion_parser)
+      -- with all four repairs on and for clean inputs ([clean_fs]: relative references, no xml:base on
+      xi:fallback, well-formed documents).  Every document, also with an xi:include as the document element
+      (T20_expansion_any_document): the Spec's result, or its error class, or a DOMException -- the code can throw
+      HIERARCHY_REQUEST_ERR for an intermediate replacement of the document element although the final result
+      would be a document -- or the silent case of finding C20-F5.  With a switch off the expansion theorem is
+      refuted (T20_*_refuted below). *)
 From Coq Require Import NArith List Bool.
 Import ListNotations.
-From XV Require Import C20.Spec20 C20.Model20.
+From XV Require Import C20.Spec20 C20.Model20 C20.Hyps20 C20.Proofs20a C20.Proofs20b C20.Proofs20c C20.Proofs20d C20.Proofs20e C20.Proofs20f C20.Proofs20g.
+From XV Require Import C20.Examples20.
 Local Open Scope N_scope.
 
-Example ex_smoke : xi_docproc [] true true false [[1]] [Elem 0 [97] [] []] = (D_ok [Elem 0 [97] [] []], []).
+(** ---- T20_terminates ---------------------------------------------------------------------------------
+    Processing terminates for every finite file system: the fuel [enough_fuel] = (files + 1) * (largest
+    document + 1) + largest document + 1 is never exhausted (measure: files not on the history stack, then
+    size of the node).  Cyclic or not, whatever the switches. *)
+Theorem T20_terminates : forall fs fixb fixn fixc uri top, ~ In E_Fuel (snd (xi_docproc fs fixb fixn fixc uri top)).
+Proof. exact docproc_no_fuel. Qed.
+Print Assumptions T20_terminates.
+
+(** the measure behind it: a document is entered only if it is neither on the history stack nor the
+    document being processed, and entering it puts it on the stack *)
+Theorem T20_no_reentry : forall fs docuri fixb fixn fixc hist base at_ kids nodes h' e,
+  inc_resolve fs docuri fixb fixn fixc hist base at_ kids = (IR_repl nodes h', e) ->
+  h' = hist \/ exists t, h' = t :: hist /\ path_mem t hist = false /\ path_eqb t docuri = false.
+Proof. exact no_reentry. Qed.
+Print Assumptions T20_no_reentry.
+
+(** a loop error (XIncludeCircularInclusionLoop / ...DocIncludesSelf) is reported at an xi:include exactly when
+    it is a valid parse="xml" include whose target is on the current inclusion path *)
+Theorem T20_loop_iff : forall fs docuri fixb fixn fixc hist base at_ kids,
+  existsb is_loop_err (snd (inc_resolve fs docuri fixb fixn fixc hist base at_ kids)) =
+  loop_condition docuri hist base at_ kids.
+Proof. exact loop_iff. Qed.
+Print Assumptions T20_loop_iff.
+
+(** ---- T20_expansion ----------------------------------------------------------------------------------
+    [agrees bm res sp]: if the Spec yields the items [t], the model reports no fatal error and its nodes,
+    annotated with the base URIs that their xml:base attributes give them, are exactly [t] (so no xi:include
+    is left, every one is replaced by the recursively processed content it designates, copies of a file
+    included twice are independent, and every element has the base URI it had in its own file); if the
+    Spec yields an error class, the model reports the corresponding XMLErrs code.  Holds for every node at
+    every depth, in particular inside included documents ([hist] = inclusion path). *)
+Theorem T20_expansion_nodes : forall fs docuri, clean_fs fs = true ->
+  forall fuel hist bm m bs s, sim bm m bs s ->
+  agrees bm (walk fs docuri true true true fuel false hist bm m) (xi_spec fs fuel (hist ++ [docuri]) bs s).
+Proof. exact sim_walk. Qed.
+Print Assumptions T20_expansion_nodes.
+
+(** whole documents through XIncludeDOMDocumentProcessor (document element not itself an xi:include):
+    with the fuel proved sufficient, the result is the Spec's, or the Spec's error class is reported
+    (never the fuel error, never a DOMException) *)
+Theorem T20_expansion : forall fs uri top pre ns nm a k post,
+  clean_fs fs = true -> clean_doc top = true -> has_text_node top = false ->
+  split_root [] top = Some (pre, Elem ns nm a k, post) -> is_include ns nm = false ->
+  match xi_spec_doc fs (enough_fuel fs top) uri top with
+  | inr t => exists r e, xi_docproc fs true true true uri top = (D_ok r, e) /\
+                         existsb is_fatal e = false /\ map (annot uri) r = t
+  | inl x => x <> XE_Fuel /\ x <> XE_RootShape /\ reports x (snd (xi_docproc fs true true true uri top))
+  end.
+Proof. exact docproc_expansion. Qed.
+Print Assumptions T20_expansion.
+
+(** every document -- in particular an xi:include as the document element.  At the document level the DOM
+    refuses text and a second element (DOMException), which the Spec calls a fatal error too (4.5.1); a vanished
+    document element is accepted silently by the code: known finding C20-F5 (third alternative). *)
+Theorem T20_expansion_any_document : forall fs uri top pre ns nm a k post,
+  clean_fs fs = true -> clean_doc top = true -> has_text_node top = false ->
+  split_root [] top = Some (pre, Elem ns nm a k, post) ->
+  let res := xi_docproc fs true true true uri top in
+  match xi_spec_doc fs (enough_fuel fs top) uri top with
+  | inr t => (exists r e, res = (D_ok r, e) /\ existsb is_fatal e = false /\ map (annot uri) r = t) \/
+             fst res = D_hierarchy_exc
+  | inl x => x <> XE_Fuel /\
+             (reports x (snd res) \/ fst res = D_hierarchy_exc \/
+              (x = XE_RootShape /\ exists r e, res = (D_ok r, e) /\ count_elem_nodes r = O))
+  end.
+Proof. exact docproc_expansion_gen. Qed.
+Print Assumptions T20_expansion_any_document.
+
+(** the Spec itself terminates with the same fuel *)
+Theorem T20_spec_terminates : forall fs uri top, clean_fs fs = true -> forallb clean_node top = true ->
+  xi_spec_doc fs (enough_fuel fs top) uri top <> inl XE_Fuel.
+Proof. exact spec_doc_no_fuel. Qed.
+Print Assumptions T20_spec_terminates.
+
+(** non-vacuity: a file tree with nested directories, ../ hrefs, a file included twice, a text inclusion,
+    a missing resource with a fallback that itself includes, an unused fallback with a failing include and an
+    included root with its own xml:base satisfies the hypotheses, and the computed answers are the ones the
+    theorem speaks about *)
+Example T20_expansion_nonvacuous :
+  clean_fs fs_ok = true /\ clean_doc top_ok = true /\ has_text_node top_ok = false /\
+  match xi_docproc fs_ok true true true uri_ok top_ok, xi_spec_doc fs_ok (enough_fuel fs_ok top_ok) uri_ok top_ok with
+  | (D_ok r, e), inr t => map (annot uri_ok) r = t /\ e = [E_IncludeFailedResourceError] /\ length t = 2%nat
+  | _, _ => False
+  end.
+Proof. vm_compute. repeat split; reflexivity. Qed.
+
+(** the parsers (XercesDOMParser, DOMLSParser; end-tag driven, with the repaired rule that leaves xi:fallback
+    content alone) compute the same as XIncludeDOMDocumentProcessor on [simple] top documents *)
+Theorem T20_parser_eq_docproc : forall fs fixb fixn fixc uri top pre ns nm a k post,
+  split_root [] top = Some (pre, Elem ns nm a k, post) -> is_include ns nm = false ->
+  simple (Elem ns nm a k) = true ->
+  xi_parser fs fixb fixn fixc true uri top = xi_docproc fs fixb fixn fixc uri top.
+Proof. exact parser_eq_docproc. Qed.
+Print Assumptions T20_parser_eq_docproc.
+
+Theorem T20_terminates_parser : forall fs fixb fixn fixc uri top pre ns nm a k post,
+  split_root [] top = Some (pre, Elem ns nm a k, post) -> is_include ns nm = false ->
+  simple (Elem ns nm a k) = true ->
+  ~ In E_Fuel (snd (xi_parser fs fixb fixn fixc true uri top)).
+Proof. exact parser_no_fuel. Qed.
+Print Assumptions T20_terminates_parser.
+
+Theorem T20_expansion_parser : forall fs uri top pre ns nm a k post,
+  clean_fs fs = true -> clean_doc top = true -> has_text_node top = false ->
+  split_root [] top = Some (pre, Elem ns nm a k, post) -> is_include ns nm = false ->
+  simple (Elem ns nm a k) = true ->
+  match xi_spec_doc fs (enough_fuel fs top) uri top with
+  | inr t => exists r e, xi_parser fs true true true true uri top = (D_ok r, e) /\
+                         existsb is_fatal e = false /\ map (annot uri) r = t
+  | inl x => x <> XE_Fuel /\ x <> XE_RootShape /\ reports x (snd (xi_parser fs true true true true uri top))
+  end.
+Proof. exact parser_expansion. Qed.
+Print Assumptions T20_expansion_parser.
+
+Example T20_parser_nonvacuous :
+  match split_root [] top_ok with
+  | Some (_, Elem ns nm a k, _) => is_include ns nm = false /\ simple (Elem ns nm a k) = true
+  | _ => False
+  end.
+Proof. vm_compute. split; reflexivity. Qed.
+
+(** ---- T20_base_fixup ---------------------------------------------------------------------------------
+    the xml:base fix-ups keep base URIs: the document element of an included document (after the fix-up, seen
+    from the including position [bm]) and every child of a used xi:fallback stands for the original node seen
+    from its own document resp. position -- [sim] contains [elem_base bm am = elem_base bs as_], hence every
+    relative reference below resolves to the same target before and after inclusion *)
+Theorem T20_base_fixup_root : forall bm b target ib href top,
+  clean_doc top = true -> clean_ref href = true -> target = resolve b (split_slash href) ->
+  (ib = None -> b = bm) ->
+  (forall v, ib = Some v -> clean_ref v = true /\ b = resolve bm (split_slash v)) ->
+  Forall2 (fun m s => sim bm m target s) (fix_root true true true bm b target ib href top) top.
+Proof. exact fix_root_sim. Qed.
+Print Assumptions T20_base_fixup_root.
+
+Theorem T20_base_fixup_fallback : forall bm b ib fkids,
+  forallb clean_node fkids = true -> (ib = None -> b = bm) ->
+  (forall v, ib = Some v -> clean_ref v = true /\ b = resolve bm (split_slash v)) ->
+  Forall2 (fun m s => sim bm m b s) (map (fix_fb_child true (negb (path_eqb bm b)) ib) fkids) fkids.
+Proof. exact fix_fb_sim. Qed.
+Print Assumptions T20_base_fixup_fallback.
+
+(** the path algebra under it: what XIncludeLocation::prependPath builds resolves, against the including
+    base, to the same target as the reference resolved step by step *)
+Theorem T20_prepend_resolves : forall fixn base b ref, endname b ->
+  resolve base (pp fixn b ref) = resolve (resolve base b) ref.
+Proof. exact resolve_pp. Qed.
+Print Assumptions T20_prepend_resolves.
+
+(** ---- T20_errors -------------------------------------------------------------------------------------
+    invalid xi:include usage is reported with the specified code and the element is left in place *)
+Theorem T20_errors_parse_value : forall fs docuri fixb fixn fixc hist base at_ kids fb h p,
+  scan_fallback kids None = FS_ok fb -> get_attr NS_NONE s_href at_ = Some h ->
+  get_attr NS_NONE s_xpointer at_ = None -> get_attr NS_NONE s_parse at_ = Some p ->
+  str_eqb p s_xml = false -> str_eqb p s_text = false ->
+  inc_resolve fs docuri fixb fixn fixc hist base at_ kids = (IR_fail, [E_InvalidParseVal]).
+Proof. exact err_badparse. Qed.
+Print Assumptions T20_errors_parse_value.
+
+Theorem T20_errors_xpointer : forall fs docuri fixb fixn fixc hist base at_ kids fb h x,
+  scan_fallback kids None = FS_ok fb -> get_attr NS_NONE s_href at_ = Some h ->
+  get_attr NS_NONE s_xpointer at_ = Some x ->
+  inc_resolve fs docuri fixb fixn fixc hist base at_ kids = (IR_fail, [E_XPointerNotSupported]).
+Proof. exact err_xpointer. Qed.
+Print Assumptions T20_errors_xpointer.
+
+Theorem T20_errors_multiple_fallback : forall fs docuri fixb fixn fixc hist base at_ pre a1 k1 mid a2 k2 post,
+  Forall notxi pre -> Forall notxi mid ->
+  inc_resolve fs docuri fixb fixn fixc hist base at_
+    (pre ++ Elem NS_XI s_fallback a1 k1 :: mid ++ Elem NS_XI s_fallback a2 k2 :: post) = (IR_fail, [E_MultipleFallbackElems]).
+Proof. intros. apply err_multi. apply scan_two_fallbacks; assumption. Qed.
+Print Assumptions T20_errors_multiple_fallback.
+
+Theorem T20_errors_orphan_fallback : forall fs docuri fixb fixn fixc f atdoc hist base a k,
+  walk fs docuri fixb fixn fixc (S f) atdoc hist base (Elem NS_XI s_fallback a k) =
+  ([Elem NS_XI s_fallback a k], [E_OrphanFallback]).
+Proof. exact err_orphan. Qed.
+Print Assumptions T20_errors_orphan_fallback.
+
+Theorem T20_errors_missing_no_fallback : forall fs docuri fixb fixn fixc hist base at_ kids h,
+  scan_fallback kids None = FS_ok None -> get_attr NS_NONE s_href at_ = Some h ->
+  get_attr NS_NONE s_xpointer at_ = None -> get_attr NS_NONE s_parse at_ = None ->
+  path_mem (resolve (elem_base base at_) (split_slash h)) hist = false ->
+  path_eqb (resolve (elem_base base at_) (split_slash h)) docuri = false ->
+  fetch fs fixn (elem_base base at_) (split_slash h) = None ->
+  inc_resolve fs docuri fixb fixn fixc hist base at_ kids =
+  (IR_fail, [E_IncludeFailedResourceError; E_IncludeFailedNoFallback]).
+Proof. exact err_missing_nofallback. Qed.
+Print Assumptions T20_errors_missing_no_fallback.
+
+Theorem T20_errors_no_href : forall fs docuri fixb fixn fixc hist base at_ kids fb,
+  scan_fallback kids None = FS_ok fb -> get_attr NS_NONE s_href at_ = None ->
+  inc_resolve fs docuri fixb fixn fixc hist base at_ kids = (IR_fail, [E_NoHref]).
+Proof. exact err_nohref. Qed.
+Print Assumptions T20_errors_no_href.
+
+Theorem T20_failed_include_stays : forall fs docuri fixb fixn fixc f atdoc hist base ns nm a k e,
+  is_include ns nm = true -> inc_resolve fs docuri fixb fixn fixc hist base a k = (IR_fail, e) ->
+  walk fs docuri fixb fixn fixc (S f) atdoc hist base (Elem ns nm a k) = ([Elem ns nm (attrs_after a k) k], e).
+Proof. exact failed_include_stays. Qed.
+Print Assumptions T20_failed_include_stays.
+
+(** all of them at once on a concrete document, as the parsers of /repo report them *)
+Example T20_errors_example :
+  snd (xi_parser fs_bad true true true true uri_bad top_bad) =
+  [E_InvalidParseVal; E_XPointerNotSupported; E_OrphanFallback; E_MultipleFallbackElems;
+   E_IncludeFailedResourceError; E_IncludeFailedNoFallback; E_NoHref; E_IncludeFailedResourceError;
+   E_IncludeFailedNoFallback; E_DisallowedChild].
 Proof. vm_compute. reflexivity. Qed.
+
+(** loops: a cycle of length 3 below the top document, and a document that includes itself *)
+Example T20_loop_example_cycle3 :
+  snd (xi_parser fs_cycle3 true true false true uri_cycle3 top_cycle3) =
+  [E_CircularInclusionLoop; E_IncludeFailedResourceError; E_IncludeFailedNoFallback] /\
+  xi_spec_doc fs_cycle3 (enough_fuel fs_cycle3 top_cycle3) uri_cycle3 top_cycle3 = inl XE_Loop.
+Proof. vm_compute. split; reflexivity. Qed.
+Example T20_loop_example_self :
+  snd (xi_parser fs_self true true false true uri_self top_self) =
+  [E_CircularInclusionDocIncludesSelf; E_IncludeFailedResourceError; E_IncludeFailedNoFallback] /\
+  xi_spec_doc fs_self (enough_fuel fs_self top_self) uri_self top_self = inl XE_Loop.
+Proof. vm_compute. split; reflexivity. Qed.
+
+(** ---- refutations: the behaviours behind the findings violate the Spec ---------------------------------
+    each with the switch of that finding off and the others on; the Spec accepts the document *)
+Definition spec_ok (s : sres) : bool := match s with inr _ => true | inl _ => false end.
+Definition model_matches (r : doc_result * list err) (uri : path) (s : sres) : Prop :=
+  match r, s with (D_ok l, e), inr t => existsb is_fatal e = false /\ map (annot uri) l = t | _, _ => False end.
+
+(** C20-F1 (repaired in /repo, 310c4f3): the parser processed an include inside an unused fallback *)
+Example T20_eager_fallback_refuted :
+  spec_ok (xi_spec_doc fs_f1 (enough_fuel fs_f1 top_f1) uri_f1 top_f1) = true /\
+  existsb is_fatal (snd (xi_parser fs_f1 true true true false uri_f1 top_f1)) = true /\
+  model_matches (xi_parser fs_f1 true true true true uri_f1 top_f1) uri_f1 (xi_spec_doc fs_f1 (enough_fuel fs_f1 top_f1) uri_f1 top_f1).
+Proof. vm_compute. repeat split; reflexivity. Qed.
+(** C20-F2 (repaired, 0b3e60b): own xml:base of the included root *)
+Example T20_root_base_refuted :
+  ~ model_matches (xi_docproc fs_f2 false true true uri_f2 top_f2) uri_f2 (xi_spec_doc fs_f2 (enough_fuel fs_f2 top_f2) uri_f2 top_f2) /\
+  model_matches (xi_docproc fs_f2 true true true uri_f2 top_f2) uri_f2 (xi_spec_doc fs_f2 (enough_fuel fs_f2 top_f2) uri_f2 top_f2).
+Proof. vm_compute. split; [intros [_ H]; discriminate H|split; reflexivity]. Qed.
+(** C20-F4 (repaired, 440f5a3): "nodir/../t.xml" *)
+Example T20_prepend_refuted :
+  existsb is_fatal (snd (xi_docproc fs_f4 true false true uri_f4 top_f4)) = true /\
+  model_matches (xi_docproc fs_f4 true true true uri_f4 top_f4) uri_f4 (xi_spec_doc fs_f4 (enough_fuel fs_f4 top_f4) uri_f4 top_f4).
+Proof. vm_compute. repeat split; reflexivity. Qed.
+(** C20-F7 (repaired, 7545b06): the include's own xml:base names the target, no fix-up was made *)
+Example T20_fixup_compare_refuted :
+  ~ model_matches (xi_docproc fs_f7 true true false uri_f7 top_f7) uri_f7 (xi_spec_doc fs_f7 (enough_fuel fs_f7 top_f7) uri_f7 top_f7) /\
+  model_matches (xi_docproc fs_f7 true true true uri_f7 top_f7) uri_f7 (xi_spec_doc fs_f7 (enough_fuel fs_f7 top_f7) uri_f7 top_f7).
+Proof. vm_compute. split; [intros [_ H]; discriminate H|split; reflexivity]. Qed.
+(** C20-F5 (known finding): the document element vanishes and nothing is reported (all repairs on) *)
+Example T20_root_vanishes_refuted :
+  xi_spec_doc fs_f5 (enough_fuel fs_f5 top_f5) uri_f5 top_f5 = inl XE_RootShape /\
+  xi_parser fs_f5 true true true true uri_f5 top_f5 = (D_ok [], [E_IncludeFailedResourceError]).
+Proof. vm_compute. split; reflexivity. Qed.
